@@ -391,6 +391,14 @@ func c10Run(c *Ctx) {
 			}
 		}
 	}
+	for _, lit := range []string{"9223372036854775807", "9223372036854775808", "18446744073709551615", "18446744073709551616", "100000000000000000000", "\u09e7\u09ee\u09ea\u09ea\u09ec\u09ed\u09ea\u09ea\u09e6\u09ed\u09e9\u09ed\u09e6\u09ef\u09eb\u09eb\u09e7\u09ec\u09e7\u09eb", "4611686018427387904"} {
+		for _, form := range []string{Print("%s & 255"), Print("%s | 0"), Print("~%s"), Print("1 << %s"), Print("%s >> 1"), Print("%s ^ %s"), Var("v", "%s") + " " + Print("v & 1"), Print("[1, 2][%s]")} {
+			src := Print(`"start"`) + "\n" + strings.ReplaceAll(form, "%s", lit) + "\n" + Print(`"AFTER"`) + "\n"
+			if c.Mine() {
+				c10Judge(c, &Case{Gen: "end-to-end", Src: src})
+			}
+		}
+	}
 	for _, lit := range []string{"500", "25", "1\u09e8.\u09eb", "\u09eb\u09e6\u09e6", "0.5", "7"} {
 		for _, form := range []string{Print("/*c*/%s"), Print("/* c */%s/* d */"), Print("%s/*c*/ + /*d*/%s"), Print("/*x*/%s == /*x*/ %s"), Var("lim", "/*\u09e7\u09e6\u09e6*/%s") + " " + Print("lim"), Print("[/*a*/%s,/*b*/%s/*c*/]"), Print("1 +//c\n%s"), Print("/**/%s/**/"), Print("/***/%s"), Print("(/*c*/%s)")} {
 			src := strings.ReplaceAll(form, "%s", lit) + "\n"
